@@ -39,4 +39,4 @@ End Generic.
 (* int(x): truncation toward zero of a Python float *)
 Class NumI (T : Type) := { ntrunc : T -> Z }.
 (* exp / log, only instantiated for R *)
-Class NumX (T : Type) := { nexp : T -> T; nln : T -> T }.
+Class NumX (T : Type) := { nexp : T -> T; nln : T -> T; nbinom : Z -> Z -> T (* scipy.special.binom on integers *) }.
